@@ -14,6 +14,9 @@ func (vector *Vector) Add(a, b Vector) {
 		panic("vector.Add: vectors don't have the same length")
 	}
 		n := uint64(len(a))
+	if n == 0 {
+		return
+	}
 	addVec(&(*vector)[0], &a[0], &b[0], n)
 }
 
@@ -25,6 +28,9 @@ func addVec(res, a, b *{{.ElementName}}, n uint64)
 func (vector *Vector) Sub(a, b Vector) {
 	if len(a) != len(b) || len(a) != len(*vector) {
 		panic("vector.Sub: vectors don't have the same length")
+	}
+	if len(a) == 0 {
+		return
 	}
 	subVec(&(*vector)[0], &a[0], &b[0], uint64(len(a)))
 }
